@@ -52,18 +52,26 @@ def generate(rng, tier, idx):
         for nm in sorted(set(names)):
             ents = []
             if rng.random() < 0.5 and li < len(levels) - 1:
-                # IGNORE something relative to this directory
+                # IGNORE something relative to this directory - one entry, or several whose paths sort around each
+                # other (an ancestor of the start plus siblings, look-alikes and things below it)
                 below = levels[li + 1:]
-                k = rng.choice(['start-ish', 'child', 'sibling', 'lookalike', 'deep'])
-                tgt = rng.choice(below)
-                rel = os.path.relpath(tgt, d or '.')
-                if k == 'sibling':
-                    rel = rel + '-sib'
-                elif k == 'lookalike':
-                    rel = rel[:-1] if len(rel) > 1 else rel + 'x'
-                elif k == 'deep':
-                    rel = rel + '/deeper'
-                ents.append({'tag': 'IGNORE', 'path': rel})
+                for _ in range(rng.choice([1, 1, 1, 2, 3, 4])):
+                    k = rng.choice(['start-ish', 'start-ish', 'child', 'sibling', 'lookalike', 'deep', 'below-other', 'sorts-between'])
+                    tgt = rng.choice(below)
+                    rel = os.path.relpath(tgt, d or '.')
+                    if k == 'sibling':
+                        rel = rel + '-sib'
+                    elif k == 'lookalike':
+                        rel = rel[:-1] if len(rel) > 1 else rel + 'x'
+                    elif k == 'deep':
+                        rel = rel + '/deeper'
+                    elif k == 'below-other':
+                        rel = rel + '/' + rng.choice(['!x', '0sib', 'Zother', 'a'])
+                    elif k == 'sorts-between':
+                        rel = rel + rng.choice(['-old', '.bak', ' 2', '+'])
+                    if not any(e['path'] == rel for e in ents):
+                        ents.append({'tag': 'IGNORE', 'path': rel})
+                rng.shuffle(ents)
             if rng.random() < 0.3:
                 ents.append({'tag': 'DATA', 'path': 'somefile', 'size': 0, 'sums': {}})
             manifests.append({'p': (d + '/' if d else '') + nm, 'entries': ents})
